@@ -199,6 +199,23 @@ theorem len_as_u8 (data : Bytes) : Rt.wrap .u8 (Int.ofNat (ints data).length) = 
   simp only [Int.ofNat_eq_natCast]
   omega
 
+theorem slice_full_ints (l : Bytes) : Rt.slice (ints l) 0 (Int.ofNat (ints l).length) = some (ints l) := by
+  have := slice_ints l 0 l.length
+  simpa using this
+
+theorem copy_full_ints (l src : Bytes) :
+    Rt.copyFromSlice (ints l) 0 (Int.ofNat (ints l).length) (ints src)
+      = if src.length = l.length then some (ints src) else none := by
+  have := copyFromSlice_ints l src 0 l.length
+  simpa using this
+
+theorem slice16_zero : Rt.slice (ints Block.zero.toList) 0 16 = some (ints Block.zero.toList) := by decide
+
+theorem copy16_zero (src : Bytes) :
+    Rt.copyFromSlice (ints Block.zero.toList) 0 16 (ints src) = if src.length = 16 then some (ints src) else none := by
+  have := copy_full_ints Block.zero.toList src
+  simpa using this
+
 theorem len_as_u8' (n : Nat) : Rt.wrap .u8 (n : Int) = toI (UInt8.ofNat n) := by
   simp only [Rt.wrap, Rt.ITy.bits, Rt.ITy.signed, Bool.false_eq_true, if_false, toI, UInt8.toNat_ofNat']
   omega
@@ -212,19 +229,14 @@ theorem calc_data_mic_eq (cr : Crypto) (data : Bytes) (fcnt : UInt32) :
   have hne := fun e => not_err_of_eq (e := e) hg
   have ho := opt_of_eq hg
   simp only [Gen.CodecFn.calculate_data_mic, calculateDataMic, zero_block_ints]
-  rw [slice_ints' _ _ _ (by omega) (by omega)]
   simp only [show (73 : Int) = toI 0x49 from rfl]
-  have hz : (List.take 16 Block.zero.toList).drop 0 = Block.zero.toList := by decide
-  simp only [Vector.length_toList, show Int.toNat 16 = 16 from rfl, show Int.toNat 0 = 0 from rfl, Nat.zero_le,
-    Nat.le_refl, and_self, if_true, Option.bind_eq_bind, Option.bind_some]
-  rw [hz, ho]
+  simp only [slice_full_ints, slice16_zero, Option.bind_eq_bind, Option.bind_some, ho]
   cases hm : generateHelperBlock data 73 fcnt Block.zero with
   | panic => simp [optOf, Outcome.map, Outcome.ofOption, Outcome.bind]
   | err e => exact absurd (by rw [hm]; rfl) (hne e)
   | ok b =>
     have hb : b.toList.length = 16 := Vector.length_toList ..
-    have hd : List.drop 16 Block.zero.toList = [] := by decide
-    simp [optOf, Outcome.map, Outcome.ofOption, Outcome.bind, copyFromSlice_ints', len_as_u8, len_as_u8', setIdx_ints', hb, hd, genCrypto, Vector.toList_set]
+    simp [optOf, Outcome.map, Outcome.ofOption, Outcome.bind, copy_full_ints, copy16_zero, len_as_u8, len_as_u8', setIdx_ints', hb, genCrypto, Vector.toList_set]
 
 /-- `calculate_mic(data, crypto)` -/
 theorem calc_mic_eq (cr : Crypto) (data : Bytes) :
@@ -298,16 +310,6 @@ theorem ck_usize_add (a b : Nat) (h : a + b < 2 ^ 64) : Rt.ck .usize ((a : Int) 
   simp only [Rt.ck, Rt.ITy.lo, Rt.ITy.hi, Rt.ITy.signed, Rt.ITy.bits]
   simp; omega
 
-theorem slice_full_ints (l : Bytes) : Rt.slice (ints l) 0 (Int.ofNat (ints l).length) = some (ints l) := by
-  have := slice_ints l 0 l.length
-  simpa using this
-
-theorem copy_full_ints (l src : Bytes) :
-    Rt.copyFromSlice (ints l) 0 (Int.ofNat (ints l).length) (ints src)
-      = if src.length = l.length then some (ints src) else none := by
-  have := copyFromSlice_ints l src 0 l.length
-  simpa using this
-
 theorem and15 (i : Nat) : Rt.andI (i : Int) 15 = ((i &&& 15 : Nat) : Int) := andI_nat i 15
 
 theorem setIdx_block15 (a : Block) (v : UInt8) :
@@ -355,15 +357,17 @@ theorem encrypt_eq_opt (cr : Crypto) (phy : Bytes) (start stop : Nat) (fcnt : UI
   have ho : Gen.CodecFn.generate_helper_block (ints phy) 1 (fcnt.toNat : Int) (ints Block.zero.toList)
       = optOf ((generateHelperBlock phy 0x01 fcnt Block.zero).map (fun b => ints b.toList)) := opt_of_eq hg
   simp only [Gen.CodecFn.encrypt_frm_data_payload, encryptFrmDataPayload, zero_block_ints, usizeSub]
-  rw [ck_usize_sub _ _ hstop]
-  by_cases hs : start ≤ stop
-  · simp only [hs, if_true, Option.bind_eq_bind, Option.bind_some, bind_ok, slice_full_ints, ho]
-    cases hm : generateHelperBlock phy 1 fcnt Block.zero with
-    | panic => simp [optOf, Outcome.map]
-    | err e => simp [optOf, Outcome.map]
-    | ok b =>
-      have hb : b.toList.length = 16 := Vector.length_toList ..
-      simp only [optOf, Outcome.map, Option.bind_some, copy_full_ints, hb, Vector.length_toList, if_true, bind_ok]
+  simp only [ck_usize_sub _ _ hstop, slice_full_ints, slice16_zero, Option.bind_eq_bind, Option.bind_some, ho]
+  cases hm : generateHelperBlock phy 1 fcnt Block.zero with
+  | panic => by_cases hs : start ≤ stop <;> simp [hs, optOf, Outcome.map]
+  | err e => by_cases hs : start ≤ stop <;> simp [hs, optOf, Outcome.map]
+  | ok b =>
+    have hb : b.toList.length = 16 := Vector.length_toList ..
+    by_cases hs : start ≤ stop
+    case neg => simp [hs, optOf, Outcome.map, copy_full_ints, copy16_zero, hb]
+    case pos =>
+      simp only [hs, if_true, Option.bind_eq_bind, optOf, Outcome.map, Option.bind_some, copy_full_ints, copy16_zero, hb,
+        Vector.length_toList, bind_ok]
       erw [forRangeM_eq cr start _ _ { a := b, s := Block.zero, ctr := 1, buf := phy } _ rfl]
       · cases hl : ksLoop cr start (List.range (stop - start)) { a := b, s := Block.zero, ctr := 1, buf := phy } with
         | ok st' => simp [optOf, Outcome.map, encSt]
@@ -376,24 +380,24 @@ theorem encrypt_eq_opt (cr : Crypto) (phy : Bytes) (start stop : Nat) (fcnt : UI
         have hjlt : i &&& 15 < 16 := Nat.lt_of_le_of_lt Nat.and_le_right (by omega)
         generalize i &&& 15 = j at *
         have hx : ∀ v : Block, v[j]? = some v[j] := fun v => by simp [hjlt]
+        have hj0 : ((0 : Int) = (j : Int)) = (j = 0) := propext ⟨fun h => by omega, fun h => by omega⟩
         cases hb : st.buf[start + i]? with
         | none =>
           by_cases hj : j = 0
           · by_cases hc : st.ctr = 255
-            · simp [hj, hc, setIdx_block15, ck_u8_succ, optOf, Outcome.map, Outcome.bind]
+            · simp [hj0, hj, hc, setIdx_block15, ck_u8_succ, optOf, Outcome.map, Outcome.bind]
             · simp [hj, hc, hb, setIdx_block15, ck_u8_succ, optOf, Outcome.map, Outcome.bind, genCrypto, Crypto.encryptBlock,
                 block_ofList_toList, idx_ints, idx_add]
-          · simp [hj, hb, optOf, Outcome.map, Outcome.bind, idx_ints, idx_add]
+          · simp [hj0, hj, hb, optOf, Outcome.map, Outcome.bind, idx_ints, idx_add]
         | some b0 =>
           have hlen : start + i < st.buf.length := (List.getElem?_eq_some_iff.mp hb).1
           by_cases hj : j = 0
           · by_cases hc : st.ctr = 255
-            · simp [hj, hc, setIdx_block15, ck_u8_succ, optOf, Outcome.map, Outcome.bind]
+            · simp [hj0, hj, hc, setIdx_block15, ck_u8_succ, optOf, Outcome.map, Outcome.bind]
             · subst hj
               simp [hc, hb, hx, hlen, setIdx_block15, ck_u8_succ, optOf, Outcome.map, Outcome.bind, genCrypto, Crypto.encryptBlock,
                 block_ofList_toList, idx_ints, setIdx_ints, idx_add, setIdx_add, idx_block, idx_block0, xor_toI, encSt]
-          · simp [hj, hb, hx, hlen, optOf, Outcome.map, Outcome.bind, idx_ints, setIdx_ints, idx_add, setIdx_add, idx_block, idx_block0, xor_toI, encSt]
-  · simp only [hs, if_false]; rfl
+          · simp [hj0, hj, hb, hx, hlen, optOf, Outcome.map, Outcome.bind, idx_ints, setIdx_ints, idx_add, setIdx_add, idx_block, idx_block0, xor_toI, encSt]
 
 theorem encrypt_ne_err (cr : Crypto) (phy : Bytes) (start stop : Nat) (fcnt : UInt32) (e : Err) :
     encryptFrmDataPayload cr phy start stop fcnt ≠ .err e := by
